@@ -3,7 +3,8 @@ From Coq Require Import ZArith NArith List Bool String.
 From Falcon.lib Require Import PyStr.
 From Falcon.gen Require Import ConstsC04.
 From Falcon.C03 Require Model Proofs.
-From Falcon.C04 Require Import Model Spec Proofs.
+From Falcon.C12 Require Json JsonProofs ProofsUtf8.
+From Falcon.C04 Require Import Model Spec Proofs Body ProofsBody.
 Import ListNotations.
 Open Scope N_scope.
 
@@ -164,7 +165,7 @@ Print Assumptions C04_no_escape_any_window.
    code (fixes/C04-render-error-body.patch) ... *)
 Theorem C04_render_error_has_body : forall v mf r x h r' b,
   render mf r = inr x -> catchable x = true ->
-  handle_exception v r x = (Handled, h, r') -> render mf r' = inl b ->
+  handle_exception_enc v r x = (Handled, h, r') -> render mf r' = inl b ->
   finish true v mf r = (Response (r_status r') (r_headers r') b, [h]).
 Proof. exact render_error_has_body. Qed.
 Print Assumptions C04_render_error_has_body.
@@ -174,7 +175,7 @@ Print Assumptions C04_render_error_has_body.
 Theorem C04_render_error_body_refuted_before_fix :
   exists v mf r x h r' b,
     render mf r = inr x /\ catchable x = true /\
-    handle_exception v r x = (Handled, h, r') /\ render mf r' = inl b /\ b <> BNone /\
+    handle_exception_enc v r x = (Handled, h, r') /\ render mf r' = inl b /\ b <> BNone /\
     finish false v mf r = (Response (r_status r') (r_headers r') BNone, [h]).
 Proof. exact render_error_body_refuted_before_fix. Qed.
 Print Assumptions C04_render_error_body_refuted_before_fix.
@@ -277,13 +278,65 @@ Example C04_example_vendor_list :
                      n_resolvable := [] |} = Some MEDIA_XML.
 Proof. split; reflexivity. Qed.
 
+(* error_body_faithful, JSON half, PROVED (on top of coq/C12's JSON and UTF-8 codecs): for every
+   error whose strings consist of Unicode scalar values the body emitted by the default
+   serializer is exactly utf8(print(to_dict_jv e)) - to_dict() with its key order, title always,
+   description / code / link{text,href,rel} only when set - and decoding and parsing it gives
+   back exactly that object; the object determines the fields. *)
+Theorem C04_error_json_body_faithful : forall d,
+  dict_scalarb d = true ->
+  exists body, json_body d = Json.SBytes body /\
+               Json.utf8_encode (Json.print (to_dict_jv d)) = Some body /\
+               Json.utf8_decode body = Some (Json.print (to_dict_jv d)) /\
+               Json.parse (Json.print (to_dict_jv d)) = Some (to_dict_jv d) /\
+               Json.json_deserialize_body body = Json.DOk (to_dict_jv d).
+Proof. exact error_json_body_faithful. Qed.
+Print Assumptions C04_error_json_body_faithful.
+
+Theorem C04_to_dict_jv_injective : forall d1 d2, to_dict_jv d1 = to_dict_jv d2 -> d1 = d2.
+Proof. exact to_dict_jv_injective. Qed.
+Print Assumptions C04_to_dict_jv_injective.
+
+(* A lone surrogate in any text: str.encode() raises UnicodeEncodeError while the error
+   response is composed; in the model (handle_exception_enc) the exception leaves the app -
+   known finding C04-error-text-surrogate-escapes. *)
+Theorem C04_error_json_surrogate_fails : forall d,
+  dict_scalarb d = false -> json_body d = Json.SEncodeError.
+Proof. exact error_json_surrogate_fails. Qed.
+Print Assumptions C04_error_json_surrogate_fails.
+
+Theorem C04_encode_ok_json : forall n e,
+  final_preferred n = Some MEDIA_JSON ->
+  (encode_ok n e = true <-> exists b, json_body (to_dict e) = Json.SBytes b).
+Proof. exact encode_ok_json. Qed.
+Print Assumptions C04_encode_ok_json.
+
+(* XML half.  The image ElementTree writes for this fixed shape is read back exactly by the
+   reader (code point level, ANY texts: & < > are the only characters that need escaping for
+   THIS reader) ... *)
+Theorem C04_xml_roundtrip : forall d, read_xml (print_xml d) = Some (xview d).
+Proof. exact xml_roundtrip. Qed.
+Print Assumptions C04_xml_roundtrip.
+
+(* ... and for scalar texts the body is the UTF-8 encoding of that image.  DOMAIN: this is
+   faithfulness w.r.t. the reader above; a conforming XML 1.0 parser additionally rejects the
+   control characters and normalises CR, which ElementTree writes unescaped (known finding
+   C04-xml-error-body-unfaithful), and rejects the &#N; written for lone surrogates. *)
+Theorem C04_error_xml_body_faithful : forall d,
+  xml_scalarb d = true ->
+  Json.utf8_encode (print_xml d) = Some (xml_body d) /\
+  Json.utf8_decode (xml_body d) = Some (print_xml d) /\
+  read_xml (print_xml d) = Some (xview d).
+Proof. exact error_xml_body_faithful. Qed.
+Print Assumptions C04_error_xml_body_faithful.
+
 (* ---- non-vacuity: class 6 derives from class 5 and from HTTPError; handlers were
    registered for 5, then for (5, HTTPError) in one call, then for Exception *)
 Definition ex_hist : list registration :=
   [([(5%nat, true)], HCustom 0); ([(5%nat, true); (c_HTTPError, true)], HCustom 1);
    ([(c_Exception, true)], HCustom 2)].
 Definition ex_err : herr :=
-  {| e_status := 404; e_title := lit "Not here"; e_desc := Some (lit "gone"); e_code := Some 7%Z;
+  {| e_status := 404; e_title := lit "Not here"; e_desc := Some (lit "gone"); e_code := Some (CodeInt 7%Z);
      e_link := None; e_headers := Some [(lit "X-Err", lit "1")] |}.
 Definition ex_exc : exc :=
   {| x_mro := [6%nat; 5%nat; c_HTTPError; c_Exception; c_BaseException; c_object];
